@@ -158,6 +158,11 @@ func (l *logger) log(msg string, fields []zap.Field) {
 	l.in.w.tr.rec("log", int64(l.in.idx), c, gid(), extra)
 	l.in.w.fire(l.in.idx, fmt.Sprintf("log:%d", c))
 	l.in.yield()
+	// a slow log sink (only for messages the library writes with no lock held: a sleeper under e.mu would keep the
+	// simulated clock from advancing)
+	if d := l.in.spec.LogDelay[fmt.Sprint(c)]; d > 0 {
+		time.Sleep(time.Duration(d))
+	}
 }
 func (l *logger) Debug(msg string, f ...zap.Field) { l.log(msg, f) }
 func (l *logger) Info(msg string, f ...zap.Field)  { l.log(msg, f) }
